@@ -408,6 +408,29 @@ pub fn run_c16(seed: u64, run: u64, stats: &mut Stats) -> Vec<Violation> {
             let (op, base) = gen_reader_input(kind, &mut g, size, &mut cfg);
             let streams = damaged_variants(&base, &mut cfg, &mut aux, kind, 3);
             stats.add(&format!("c16.values.read.{}", kind.name()), 1);
+            // the intact stream cut at every byte of what the operation
+            // consumes (beyond 96 bytes: every 7th cut and the last 16)
+            if !(kind.first_byte_is_param() && base.is_empty()) {
+                let consumed = {
+                    let w = run_read(&op, &base, &ReaderPlan::clean(Chunking::Whole));
+                    if matches!(w.out, ROut::Ok(_)) { w.pos as usize + usize::from(kind.first_byte_is_param()) } else { 0 }
+                };
+                for cut in 0..consumed.min(base.len()) {
+                    if consumed > 96 && cut % 7 != 0 && cut + 16 < consumed {
+                        continue;
+                    }
+                    l.exec += 1;
+                    let mkc = || Case::Cut { op: op.clone(), stream: base.clone(), cut };
+                    match traced(mkc, || check_cut(&op, &base, cut)) {
+                        Ok(true) => {
+                            stats.add("c16.stream_cut_inside_header", 1);
+                            stats.mark("nontrivial", mix(&[8, kind as u64, fnv64(&base), cut as u64]));
+                        }
+                        Ok(false) => {}
+                        Err(f) => report!(mkc(), f),
+                    }
+                }
+            }
             for stream in streams {
                 if kind.first_byte_is_param() && stream.is_empty() {
                     continue;
@@ -442,6 +465,7 @@ pub fn run_c16(seed: u64, run: u64, stats: &mut Stats) -> Vec<Violation> {
                                 fault: Some((j, f)),
                                 token: mix(&[vseed, j as u64]) >> 8,
                                 inspect: false,
+                                over_report: None,
                             };
                             l.exec += 1;
                             match traced(|| mk(plan.clone()), || check_read(&op, &stream, &plan)) {
@@ -473,6 +497,7 @@ pub fn run_c16(seed: u64, run: u64, stats: &mut Stats) -> Vec<Violation> {
                         fault: Some((1, HardFault::Zero)),
                         token: 7,
                         inspect: false,
+                                over_report: None,
                     })
                     .to_json());
                 }
@@ -547,6 +572,7 @@ pub fn run_c16(seed: u64, run: u64, stats: &mut Stats) -> Vec<Violation> {
                         fault: Some((j, f)),
                         token: mix(&[vseed, j as u64]) >> 8,
                         inspect: false,
+                                over_report: None,
                     };
                     l.exec += 1;
                     match traced(|| mk(plan.clone()), || check_limited(data_len, limit, &ops, &plan)) {
@@ -1181,6 +1207,7 @@ pub fn run_c01(seed: u64, run: u64, stats: &mut Stats, inspect: bool) -> Vec<Vio
             fault: None,
             token: 0,
             inspect,
+            over_report: None,
         };
         let n_calls = match traced(
             || Case::Mem {
@@ -1209,12 +1236,14 @@ pub fn run_c01(seed: u64, run: u64, stats: &mut Stats, inspect: bool) -> Vec<Vio
                 fault: None,
                 token: 0,
                 inspect,
+                over_report: None,
             },
             ReaderPlan {
                 chunking: Chunking::RandomEintr(chunk_seed),
                 fault: None,
                 token: 0,
                 inspect,
+                over_report: None,
             },
         ];
         let fault_calls: Vec<usize> = if inspect {
@@ -1231,6 +1260,20 @@ pub fn run_c01(seed: u64, run: u64, stats: &mut Stats, inspect: bool) -> Vec<Vio
                 fault: Some((j, if aux.bool() { HardFault::Error } else { HardFault::Zero })),
                 token: 99,
                 inspect,
+                over_report: None,
+            });
+        }
+        // a safe but lying reader: at one call it claims to have read more
+        // bytes than fit into the buffer
+        if n_calls > 0 {
+            let j = aux.usize_range(0, n_calls - 1);
+            let by = *aux.pick(&[1usize, 3, 8, 40, 200, 4096]);
+            plans.push(ReaderPlan {
+                chunking: if aux.bool() { Chunking::Whole } else { Chunking::Fixed(4) },
+                fault: None,
+                token: 0,
+                inspect,
+                over_report: Some((j, by)),
             });
         }
         for plan in plans {
@@ -1252,6 +1295,9 @@ pub fn run_c01(seed: u64, run: u64, stats: &mut Stats, inspect: bool) -> Vec<Vio
                     }
                     if plan.fault.is_some() {
                         stats.add("fault_fired.reader_fault", 1);
+                    }
+                    if plan.over_report.is_some() {
+                        stats.add("fault_fired.reader_over_reports_bytes_read", 1);
                     }
                     if vi > 0 {
                         stats.add("fault_fired.medium_damage", 1);
@@ -1276,6 +1322,7 @@ pub fn run_c01(seed: u64, run: u64, stats: &mut Stats, inspect: bool) -> Vec<Vio
                         fault: None,
                         token: 0,
                         inspect,
+                        over_report: None,
                     },
                 }
                 .to_json(),
